@@ -1,24 +1,21 @@
 (* C06  Value ordering is a total preorder; sort and merge honour it at any memory limit.
    Statements only; each is closed by [exact] of a lemma from Proofs/.
 
-   Model: Model/Order.v (compareValues, compareNumbers, CompareTypes,
-   Comparator.Compare, the less closure of sortStableIndices) and Model/Sort.v
-   (sort.Op run splitting, spill.MergeSort, merge.Op).
-   Guards.  The code converts integers to float64 when they meet a float, so
-   transitivity is FALSE of the faithful model ([C06_compare_transitive_refuted]);
-   the positive statements hold when either every integer involved is exactly
-   representable as a float64 ([all_nums num_ok], e.g. |z| <= 2^53) or no float
-   is involved ([all_nums num_nofloat]). *)
+   Model: Model/Order.v (compareValues, compareNumbers with the exact
+   integer/float comparison compareExact, CompareTypes, Comparator.Compare, the
+   less closure of sortStableIndices) and Model/Sort.v (sort.Op run splitting,
+   spill.MergeSort, merge.Op).
+   The only hypothesis on values is well-formedness [all_nums num_wf]: every
+   integer, at any nesting depth, lies in the range of its 64-bit encoding (the
+   model's Z and N are unbounded; every decoded ZNG value satisfies it). *)
 From Coq Require Import Sorting.Permutation Sorting.Sorted.
 From ZV Require Import Base.Prelude Base.Num Model.Order Model.Sort
      Proofs.OrderProofs Proofs.SortProofs Proofs.SortRowsProofs.
 Local Open Scope Z_scope.
 
-Local Notation exact_v := (all_nums num_ok).
-Local Notation nofloat_v := (all_nums num_nofloat).
-(* a row of key values within a guard; int64 keys within the int64 range *)
-Local Notation row_in G := (fun r : irow => Forall G (snd r) /\ in_range (hd vnull (snd r))).
-Local Notation rows_in_guard l := (Forall (row_in exact_v) l \/ Forall (row_in nofloat_v) l).
+Local Notation wf_v := (all_nums num_wf).
+(* rows of well-formed key values *)
+Local Notation rows_wf l := (Forall (fun r : irow => Forall wf_v (snd r)) l).
 Local Notation le_rows nm ks := (fun a b : irow => lt_rows nm ks (snd b) (snd a) = false).
 Local Notation less nm ks := (fun a b : irow => lt_rows nm ks (snd a) (snd b)).
 
@@ -32,19 +29,14 @@ Theorem C06_compare_reflexive : forall nm a, cmp_to_Z (cmpv nm a a) = 0.
 Proof. exact cmpv_refl_Z. Qed.
 Print Assumptions C06_compare_reflexive.
 
-(* ... transitive within the guards (nested arrays/sets included) *)
-Theorem C06_compare_transitive_guarded :
+(* ... and transitive: integers of any magnitude against floats, NaN, +-Inf, -0,
+   durations/times, nested arrays/sets, nulls first or last *)
+Theorem C06_compare_transitive :
   forall nm a b c,
-    (exact_v a /\ exact_v b /\ exact_v c) \/ (nofloat_v a /\ nofloat_v b /\ nofloat_v c) ->
+    wf_v a -> wf_v b -> wf_v c ->
     cmp_to_Z (cmpv nm a b) <= 0 -> cmp_to_Z (cmpv nm b c) <= 0 -> cmp_to_Z (cmpv nm a c) <= 0.
-Proof. exact cmpv_trans_guarded. Qed.
-Print Assumptions C06_compare_transitive_guarded.
-
-(* ... and NOT transitive outside: 2^53+1 <= 2^53 (float) <= 2^53 but 2^53+1 > 2^53 *)
-Theorem C06_compare_transitive_refuted :
-  exists nm a b c, cmpv nm a b <> Gt /\ cmpv nm b c <> Gt /\ cmpv nm a c = Gt.
-Proof. exact cmpv_transitive_refuted. Qed.
-Print Assumptions C06_compare_transitive_refuted.
+Proof. exact cmpv_trans_Z. Qed.
+Print Assumptions C06_compare_transitive.
 
 (* 2. Comparator.Compare (1..n keys, asc/desc, nulls first/last, missing as null) *)
 Theorem C06_comparator_antisymmetric :
@@ -53,14 +45,13 @@ Theorem C06_comparator_antisymmetric :
 Proof. exact compare_rows_antisym_Z. Qed.
 Print Assumptions C06_comparator_antisymmetric.
 
-Theorem C06_comparator_transitive_guarded :
+Theorem C06_comparator_transitive :
   forall nm ks ra rb rc,
-    (Forall exact_v ra /\ Forall exact_v rb /\ Forall exact_v rc) \/
-    (Forall nofloat_v ra /\ Forall nofloat_v rb /\ Forall nofloat_v rc) ->
+    Forall wf_v ra -> Forall wf_v rb -> Forall wf_v rc ->
     cmp_to_Z (compare_rows nm ks ra rb) <= 0 -> cmp_to_Z (compare_rows nm ks rb rc) <= 0 ->
     cmp_to_Z (compare_rows nm ks ra rc) <= 0.
-Proof. exact compare_rows_trans_guarded. Qed.
-Print Assumptions C06_comparator_transitive_guarded.
+Proof. exact compare_rows_trans_Z. Qed.
+Print Assumptions C06_comparator_transitive.
 
 (* 3. the bulk sorter's less closure (native int64 table, clamped uint64 and
    null sentinels, fall-through on sentinel collisions) = (Compare < 0),
@@ -78,7 +69,7 @@ Theorem C06_sort_is_stable_sort_at_any_memory_limit :
   forall nullsFirst reverse descs mem (bs : list (Z * list irow)),
     let ks := eff_keys reverse descs in
     let nm := eff_nullsmax nullsFirst ks in
-    rows_in_guard (List.concat (map snd bs)) ->
+    rows_wf (List.concat (map snd bs)) ->
     sort_op_rows nm ks mem bs = stable_sort (less nm ks) (List.concat (map snd bs)).
 Proof. exact sort_any_memory_limit. Qed.
 Print Assumptions C06_sort_is_stable_sort_at_any_memory_limit.
@@ -86,7 +77,7 @@ Print Assumptions C06_sort_is_stable_sort_at_any_memory_limit.
 Theorem C06_sort_output_independent_of_memory_limit :
   forall nm ks mem1 mem2 (bs1 bs2 : list (Z * list irow)),
     List.concat (map snd bs1) = List.concat (map snd bs2) ->
-    rows_in_guard (List.concat (map snd bs1)) ->
+    rows_wf (List.concat (map snd bs1)) ->
     sort_op_rows nm ks mem1 bs1 = sort_op_rows nm ks mem2 bs2.
 Proof. exact sort_spill_invariant. Qed.
 Print Assumptions C06_sort_output_independent_of_memory_limit.
@@ -95,7 +86,7 @@ Print Assumptions C06_sort_output_independent_of_memory_limit.
    sort of the concatenation, for EVERY placement of the run boundaries *)
 Theorem C06_external_merge_sort_any_run_boundaries :
   forall nm ks (runs : list (list irow)),
-    rows_in_guard (List.concat runs) ->
+    rows_wf (List.concat runs) ->
     ext_sort (less nm ks) (sort_run nm ks) runs = stable_sort (less nm ks) (List.concat runs).
 Proof. exact external_sort_any_runs. Qed.
 Print Assumptions C06_external_merge_sort_any_run_boundaries.
@@ -104,7 +95,7 @@ Print Assumptions C06_external_merge_sort_any_run_boundaries.
    equivalent values in input order *)
 Theorem C06_stable_sort_is_sorted_stable_permutation :
   forall nm ks (l : list irow),
-    rows_in_guard l ->
+    rows_wf l ->
     Permutation (stable_sort (less nm ks) l) l /\
     StronglySorted (le_rows nm ks) (stable_sort (less nm ks) l) /\
     (forall x, In x l ->
@@ -117,7 +108,7 @@ Print Assumptions C06_stable_sort_is_sorted_stable_permutation.
    sorted permutation of the (sorted) inputs *)
 Theorem C06_kway_merge_sorted_permutation :
   forall nm ks (parents : list (list irow)) out,
-    rows_in_guard (List.concat parents) ->
+    rows_wf (List.concat parents) ->
     Forall (StronglySorted (le_rows nm ks)) parents ->
     kmerge (less nm ks) parents out ->
     Permutation out (List.concat parents) /\ StronglySorted (le_rows nm ks) out.
